@@ -108,9 +108,9 @@ def gen_number_expr(rng, safe=False):
     if k == 2:
         return "%d/%d" % (rng.range(-(1 << 70), 1 << 70), rng.range(1, 1 << 40))
     if k == 3:
-        # hard-to-read doubles live in real leaves (finding F10 is classified there); a NaN part is rare (finding F12)
-        im = "+nan.0" if rng.chance(1, 40) else rng.choice(["1", "-3/4", gen_float(rng, True)])
-        return "(make-rectangular %s %s)" % (rng.choice(["1", "-2", "1/2", gen_float(rng, True)]), im)
+        # (while findings F10 and F12 were open, complex parts were restricted to short exact decimals and NaN parts were rare)
+        im = "+nan.0" if rng.chance(1, 10) else rng.choice(["1", "-3/4", gen_float(rng, safe), gen_float(rng, safe)])
+        return "(make-rectangular %s %s)" % (rng.choice(["1", "-2", "1/2", gen_float(rng, safe), gen_float(rng, safe)]), im)
     return gen_float(rng, safe)
 
 
@@ -162,7 +162,7 @@ def gen_graph(rng):
             body.append("(if (vector? s%d) (vector-set! s%d 1 s%d))" % (i, i, i))
             cyc = True
     refs = " ".join("s%d" % rng.below(n) for _ in range(rng.range(2, 6)))
-    extra = gen_tree(rng, 2, True)
+    extra = gen_tree(rng, 2, False)
     return "(let* (%s) %s (list %s %s))" % (" ".join(binds), " ".join(body), refs, extra), True
 
 
